@@ -357,6 +357,9 @@ def run(ctx):
     _classes = _eqh.rule_H_EQSHAPE(ctx, _st, _cap)
     _eqh.rule_H_ORDER(ctx)
     _eqh.rule_H_HASH(ctx, _st, _classes)
+    # format_image re-inserts the placeholder through ImageIterator (seed c01-n: a fused next() drops a trailing placeholder)
+    import c14 as _c14
+    _c14.rule_K_IMAGEITER(ctx)
     ctx.undecided = ["that parsed and original values compare equal for all values (depends on C06 and on run-time data)",
                      "nesting-dependent ambiguity; name well-formedness side conditions"]
     ctx.assumptions = ["f64 Display emits only digits and '.' for finite values in [0,1] (std guarantee)",
